@@ -19,38 +19,20 @@ Theorem C12_registry : forall acc sites pre i s inp t present,
   nth_error sites i = Some s -> s_field s = true -> site_ok s (length (defs pre)) = true ->
   crash_on_refill s = false ->                       (* not the region of finding optional-union-nonetype-variant *)
   assoc (s_fid s) inp = Some (Hashable t) ->          (* the site's key is present in the input and its value is t *)
-  tag_unique (defs pre) s t -> plain_carriers sites (defs pre) s t -> no_keyerror acc (defs pre) s t present ->
+  tag_unique (defs pre) s t -> plain_carriers sites (defs pre) s t ->
   exists o, snd (step acc sites (final acc sites pre) (Decode i inp present)) = Some o
             /\ field_spec acc (defs pre) s t present o.
 Proof. exact decode_field_correct. Qed.
 Print Assumptions C12_registry.
 
-(* the full statement has no [no_keyerror] hypothesis; the faithful model violates it: *)
-Definition C12_registry_full : Prop := forall acc sites pre i s inp t present,
-  nth_error sites i = Some s -> s_field s = true -> site_ok s (length (defs pre)) = true ->
-  crash_on_refill s = false -> assoc (s_fid s) inp = Some (Hashable t) -> tag_unique (defs pre) s t -> plain_carriers sites (defs pre) s t ->
-  exists o, snd (step acc sites (final acc sites pre) (Decode i inp present)) = Some o
-            /\ field_spec acc (defs pre) s t present o.
-
-(* Known finding C12/variant-keyerror-misreported: the class carrying the tag IS found, its own from_dict raises a
-   KeyError (a __pre_deserialize__ hook), the dispatcher takes that for a registry miss, refills, retries and reports
-   SuitableVariantNotFound - "no class carries this tag" - although one does. *)
+(* the selected class's own KeyError surfaces as such (fix C12-variant-keyerror-misreported: only the registry lookup is
+   guarded): carrier with a raising hook -> OKeyErr, not "no suitable variant" *)
 Definition s_ke : site := Site [0] true false true false false false 0 0 false.
 Definition h_ke : list op := [Define [] [] [] [] false; Define [0] [(0, 1)] [] [] true].
-Theorem C12_variant_keyerror_refuted : ~ C12_registry_full.
-Proof.
-  intros F.
-  assert (U: tag_unique (defs h_ke) s_ke 1).
-  { apply (proj1 (tag_uniqueb_iff (defs h_ke) s_ke 1 (wf_defs h_ke) eq_refl)). reflexivity. }
-  destruct (F acc_req [s_ke] h_ke 0 s_ke [(0, Hashable 1)] 1 [kerr_marker] eq_refl eq_refl eq_refl eq_refl eq_refl U (fun c _ => eq_refl))
-    as [o [E [_ [_ [N _]]]]].
-  vm_compute in E. injection E as <-.
-  apply (proj1 N eq_refl 1). split.
-  - left. split; [reflexivity|]. exists 0. split; [left; reflexivity|].
-    apply desc_child. exists (Cls [0] [(0, 1)] [] [] true). split; [reflexivity | left; reflexivity].
-  - exists (Cls [0] [(0, 1)] [] [] true). split; [reflexivity | left; reflexivity].
-Qed.
-Print Assumptions C12_variant_keyerror_refuted.
+Example C12_variant_keyerror_surfaces :
+  snd (step acc_req [s_ke] (final acc_req [s_ke] h_ke) (Decode 0 [(0, Hashable 1)] [kerr_marker])) = Some (OKeyErr 1)
+  /\ snd (step acc_req [s_ke] (final acc_req [s_ke] h_ke) (Decode 0 [(0, Hashable 1)] [])) = Some (OInst 1).
+Proof. vm_compute. split; reflexivity. Qed.
 
 (* FULL STRENGTH, no hypothesis about nested dispatchers: after ANY history the stateful dispatcher (registries, refills,
    retries, nested class-level dispatchers of either mode, rejecting classes) answers exactly what the registry-free
@@ -69,26 +51,6 @@ Theorem C12_history_independent_full : forall acc sites pre1 pre2 i inp present,
 Proof. exact history_independent_ref. Qed.
 Print Assumptions C12_history_independent_full.
 
-(* the full statement has no [no_crash] hypothesis; the faithful model violates it - known finding
-   C12/optional-union-nonetype-variant: Annotated[Optional[Union[A, B]], D(include_supertypes, tagger)] makes NoneType a
-   variant; the first registry miss crashes while compiling it (after registering the real classes), so the SAME input
-   through the SAME classes is answered differently before and after an earlier call *)
-Definition C12_history_independent_full_stmt : Prop := forall acc sites pre1 pre2 i inp present,
-  defs pre1 = defs pre2 -> uniq_all sites (defs pre1) inp ->
-  snd (step acc sites (final acc sites pre1) (Decode i inp present))
-  = snd (step acc sites (final acc sites pre2) (Decode i inp present)).
-Definition s_ou : site := Site [0; 1] true true true true false false 0 0 true.
-Definition h_ou : list op := [Define [] [] [(0, [5])] [] false; Define [0] [] [(0, [6])] [] false].
-Theorem C12_optional_union_refuted : ~ C12_history_independent_full_stmt.
-Proof.
-  intros F.
-  assert (UA: uniq_all [s_ou] (defs h_ou) [(0, Hashable 6)]).
-  { apply uniq_allb_sound; [apply wf_defs | reflexivity]. }
-  specialize (F acc_req [s_ou] h_ou (h_ou ++ [Decode 0 [(0, Hashable 5)] []]) 0 [(0, Hashable 6)] [] eq_refl UA).
-  vm_compute in F. discriminate F.
-Qed.
-Print Assumptions C12_optional_union_refuted.
-
 Theorem C12_uniq_all_decidable : forall sites ops inp, uniq_allb sites (defs ops) inp = true -> uniq_all sites (defs ops) inp.
 Proof. intros sites ops inp. apply uniq_allb_sound, wf_defs. Qed.
 Print Assumptions C12_uniq_all_decidable.
@@ -98,7 +60,7 @@ Print Assumptions C12_uniq_all_decidable.
    field_spec of its own site; the first failing field decides the error).  The sites do not interfere: this is what
    /repo fix 79143aa (one tagger name per dispatcher) repaired. *)
 Theorem C12_multi_field : forall acc sites pre l,
-  (forall e, In e l -> entry_ok acc sites (defs pre) e) ->
+  (forall e, In e l -> entry_ok sites (defs pre) e) ->
   exists o, snd (step acc sites (final acc sites pre) (DecodeSeq l)) = Some o
             /\ seq_spec acc (defs pre) sites l [] o.
 Proof. exact multi_field_correct. Qed.
@@ -146,7 +108,6 @@ Theorem C12_history_independent : forall acc sites1 sites2 pre1 pre2 i1 i2 s inp
   assoc (s_fid s) inp1 = Some (Hashable t) -> assoc (s_fid s) inp2 = Some (Hashable t) ->
   defs pre1 = defs pre2 -> site_ok s (length (defs pre1)) = true -> crash_on_refill s = false -> tag_unique (defs pre1) s t ->
   plain_carriers sites1 (defs pre1) s t -> plain_carriers sites2 (defs pre1) s t ->
-  no_keyerror acc (defs pre1) s t present ->
   snd (step acc sites1 (final acc sites1 pre1) (Decode i1 inp1 present))
   = snd (step acc sites2 (final acc sites2 pre2) (Decode i2 inp2 present)).
 Proof. exact history_independent. Qed.
@@ -259,10 +220,6 @@ Proof.
     destruct (C12_registry acc_req [s_demo] h_late 0 s_demo [(0, Hashable 3)] 3 [] eq_refl eq_refl eq_refl eq_refl eq_refl
                 (proj1 (C12_tag_unique_decidable h_late s_demo 3 eq_refl) eq_refl)
                 (fun c _ => eq_refl)) as [o [E S]].
-    { intros c _. (* acceptance never raises KeyError here: no class has the hook *)
-      assert (K: forall k present, c_kerr k = false -> acc_req k present <> VKeyError).
-      { intros k pr H. unfold acc_req. rewrite H. cbn. destruct (forallb _ _); discriminate. }
-      apply K. destruct c as [|[|[|[|c]]]]; try reflexivity. destruct c; reflexivity. }
     vm_compute in E. injection E as <-. apply (proj1 (proj1 S 3) eq_refl).
 Qed.
 
